@@ -265,22 +265,25 @@ Proof.
   - destruct x; reflexivity.
 Qed.
 
+Lemma b_write_buffered_stream y : b_stream y = true -> b_write_buffered y = Done y.
+Proof. unfold b_write_buffered. intros ->. rewrite andb_false_r. reflexivity. Qed.
+
 Lemma inner_ret m ops ret err x :
   forallb set_ok ops = true -> (300 <=? ret) = true -> b_mode x = TOff -> b_stream x = false ->
   templates_mw m (probe ops ret err) x = HRet ret err (apply_sets ops (enter_templates m x)).
 Proof.
-  intros Hs Hr Hm Hst. unfold templates_mw, probe.
-  destruct m; cbn [enter_templates]; rewrite (run_sets_only _ _ Hs).
-  - reflexivity.
-  - rewrite Hr. rewrite orb_true_r. reflexivity.
-  - rewrite Hr. rewrite orb_true_r. reflexivity.
-  - rewrite Hr. rewrite orb_true_r. reflexivity.
+  intros Hs Hr Hm Hst. unfold templates_mw, templates_on, probe.
+  destruct m; cbn [enter_templates]; rewrite (run_sets_only _ _ Hs); [reflexivity| | |];
+    rewrite Hr, orb_true_r; cbv iota; unfold b_write_buffered;
+    match goal with |- context [b_wrote ?Y && _] =>
+      replace (b_wrote Y) with false by (unfold apply_sets; destruct x; reflexivity) end;
+    cbn [andb]; destruct (ret <? 400); reflexivity.
 Qed.
 Lemma inner_pan m ops rest ret err x :
   forallb set_ok ops = true ->
   templates_mw m (probe (ops ++ OPanic :: rest) ret err) x = HPan (apply_sets ops (enter_templates m x)).
 Proof.
-  intros Hs. unfold templates_mw, probe.
+  intros Hs. unfold templates_mw, templates_on, probe.
   destruct m; cbn [enter_templates]; rewrite (run_sets _ _ _ Hs); reflexivity.
 Qed.
 
@@ -324,18 +327,17 @@ Proof.
   intros Hi F Hm R1 Hv Hb.
   assert (Fce : hget (chdr x1) K_CE = None) by (destruct F as (_&_&_&_&_&_&_&_&_&F10); exact F10).
   unfold errors_mw. rewrite Hi.
+  rewrite R1, andb_true_r.
   destruct m as [| | |pages generic]; [congruence| | |].
-  - rewrite andb_false_r, R1.
+  - rewrite andb_false_r.
     destruct (error_page_answers et EPlain ret x1 F Hv Hb) as (y & E & A). rewrite E. eauto.
-  - destruct err.
-    + change (true && true) with true. cbv iota.
-      destruct (write3 x1 (hset (chdr x1) K_CT V_TEXT) ret (errmsg ep ret) F) as (y & E & A); try assumption.
+  - destruct err; cbn [andb].
+    + destruct (write3 x1 (hset (chdr x1) K_CT V_TEXT) ret (errmsg ep ret) F) as (y & E & A); try assumption.
       { hsimp. exact Fce. }
       rewrite E. eauto.
-    + change (false && true) with false. cbv iota. rewrite R1.
-      destruct (error_page_answers et EDebug ret x1 F Hv Hb) as (y & E & A). rewrite E.
+    + destruct (error_page_answers et EDebug ret x1 F Hv Hb) as (y & E & A). rewrite E.
       exists y, false. split; [reflexivity|]. exact A.
-  - rewrite andb_false_r, R1.
+  - rewrite andb_false_r.
     destruct (error_page_answers et (EPages pages generic) ret x1 F Hv Hb) as (y & E & A). rewrite E. eauto.
 Qed.
 
@@ -378,7 +380,7 @@ Lemma outer_passes et lg act hd (E : st -> hres) r e y c t :
   let x := server et (log_mw et lg (gzip_mw et act (header_mw hd E))) in
   cm x = Some c /\ sup x = 0%nat /\ view x = (false, t).
 Proof.
-  intros HE Hr (Ag & Ac & As & Av). unfold server, log_mw, gzip_mw, header_mw.
+  intros HE Hr (Ag & Ac & As & Av). unfold server, log_mw, log_next, gzip_mw, header_mw.
   assert (Eh : (if hd then E (set_chdr (set_h (enter_gzip act st0) true false)
                                  (hset (hdel (chdr (enter_gzip act st0)) K_XDEL) K_XCFG V_CFG))
                 else E (enter_gzip act st0)) = HRet r e y).
@@ -404,7 +406,7 @@ Lemma outer_fallback_ret et lg hd (E : st -> hres) ret err x1 :
   let r := server et (log_mw et lg (gzip_mw et false (header_mw hd E))) in
   cm r = Some ret /\ sup r = 0%nat /\ view r = (false, et ret).
 Proof.
-  intros HE F G R1 Hv Hb. unfold server, log_mw, gzip_mw, header_mw.
+  intros HE F G R1 Hv Hb. unfold server, log_mw, log_next, gzip_mw, header_mw.
   assert (Eh : (if hd then E (set_chdr (set_h st0 true false) (hset (hdel (chdr st0) K_XDEL) K_XCFG V_CFG))
                 else E st0) = HRet ret err x1).
   { rewrite <- HE. unfold entry, enter_header, enter_gzip. destruct hd; reflexivity. }
@@ -419,7 +421,7 @@ Lemma outer_fallback_pan et lg hd (E : st -> hres) x1 :
   let r := server et (log_mw et lg (gzip_mw et false (header_mw hd E))) in
   cm r = Some 500 /\ sup r = 0%nat /\ view r = (false, et 500).
 Proof.
-  intros HE F G. unfold server, log_mw, gzip_mw, header_mw.
+  intros HE F G. unfold server, log_mw, log_next, gzip_mw, header_mw.
   assert (Eh : (if hd then E (set_chdr (set_h st0 true false) (hset (hdel (chdr st0) K_XDEL) K_XCFG V_CFG))
                 else E st0) = HPan x1).
   { rewrite <- HE. unfold entry, enter_header, enter_gzip. destruct hd; reflexivity. }
@@ -656,16 +658,45 @@ Proof.
     rewrite <- app_assoc in I2. cbn in I2. split; [reflexivity|]. split; [exact I2|]. split; congruence.
 Qed.
 
+(* a Flush after the header went out changes nothing: the compressor is not flushed *)
+Lemma inv3_fl c acc y : Inv3 c acc y -> step OFl y = Done y.
+Proof.
+  intros (I1 & I2 & I3 & I4 & I5). cbn [step].
+  assert (Hg : g_fl y = Done y).
+  { unfold g_fl, c_fl. destruct (gz_on y).
+    - destruct I5 as (G1 & _). rewrite G1. cbn [bnd]. rewrite I1. reflexivity.
+    - rewrite I1. reflexivity. }
+  assert (Hh : h_fl y = Done y).
+  { unfold h_fl. destruct (h_on y); [|exact Hg]. rewrite (I3 eq_refl). cbn [bnd]. exact Hg. }
+  unfold b_fl.
+  destruct I4 as [I4 | [I4 I4']]; [rewrite I4; exact Hh|].
+  rewrite I4. cbn [bnd]. rewrite I4'. destruct (b_active y); exact Hh.
+Qed.
+
+Lemma inv3_wops c ws : bodyless c = false -> forall acc y, Inv3 c acc y ->
+  exists y' acc', run_script (map wop_op ws) y = Done y' /\ Inv3 c acc' y' /\
+                  concat acc' = concat acc ++ wbody ws /\ gz_on y' = gz_on y /\ b_mode y' = b_mode y.
+Proof.
+  intro Hb. induction ws as [|w ws IH]; intros acc y I.
+  - exists y, acc. unfold wbody. cbn [map concat]. rewrite app_nil_r. auto.
+  - destruct w as [b|].
+    + destruct (inv3_write c acc y b Hb I) as (y1 & E1 & I1 & G1 & M1).
+      destruct (IH (acc ++ [b]) y1 I1) as (y2 & acc2 & E2 & I2 & C2 & G2 & M2).
+      exists y2, acc2. cbn [map wop_op run_script step]. rewrite E1. cbn [bnd]. rewrite E2.
+      split; [reflexivity|]. split; [exact I2|]. split; [|split; congruence].
+      rewrite C2. rewrite concat_app. unfold wbody. cbn [map wop_bytes concat]. rewrite app_nil_r, <- app_assoc. reflexivity.
+    + destruct (IH acc y I) as (y2 & acc2 & E2 & I2 & C2 & G2 & M2).
+      exists y2, acc2. cbn [map wop_op run_script]. rewrite (inv3_fl c acc y I). cbn [bnd]. rewrite E2.
+      split; [reflexivity|]. split; [exact I2|]. split; [|split; assumption].
+      rewrite C2. unfold wbody. cbn [map wop_bytes concat app]. reflexivity.
+Qed.
+
 Lemma errors_pass et ep m inner x r e y :
-  inner x = HRet r e y -> (400 <=? r) = false -> (e = false \/ m <> EDebug) ->
+  inner x = HRet r e y -> (400 <=? r) = false ->
   errors_mw et ep m inner x = HRet r e y.
 Proof.
-  intros Hi Hr He. unfold errors_mw. rewrite Hi.
-  destruct m as [| | |pages generic]; try reflexivity.
-  - rewrite andb_false_r, Hr. reflexivity.
-  - destruct He as [He|He]; [|congruence]. subst e. change (false && true) with false. cbv iota.
-    rewrite Hr. reflexivity.
-  - rewrite andb_false_r, Hr. reflexivity.
+  intros Hi Hr. unfold errors_mw. rewrite Hi.
+  destruct m as [| | |pages generic]; try reflexivity; rewrite Hr, ?andb_false_r; reflexivity.
 Qed.
 
 Lemma apply_sets_templates sets m X :
@@ -681,24 +712,23 @@ Proof. destruct x; reflexivity. Qed.
 
 (* WriteHeader s + Writes, templates absent or deciding not to buffer: the response goes out
    as written *)
-Lemma written_streamed et c path ae sets s bs ret err :
+Lemma written_streamed et c path ae sets s ws ret err :
   forallb set_ok sets = true -> status_rule c path = None ->
   valid_code s = true -> bodyless s = false -> ret < 400 ->
-  (err = false \/ eff_errors c <> EDebug) ->
   should_buffer (tmode_of c path) (hs_fun sets []) = false ->
-  let x := serve et c path ae (sets ++ OWh s :: map OWr bs) ret err in
-  cm x = Some s /\ sup x = 0%nat /\ view x = (false, concat bs).
+  let x := serve et c path ae (sets ++ OWh s :: map wop_op ws) ret err in
+  cm x = Some s /\ sup x = 0%nat /\ view x = (false, wbody ws).
 Proof.
-  intros Hs Hr Hv Hb Hret Herr Hsb.
+  intros Hs Hr Hv Hb Hret Hsb.
   assert (R1 : (400 <=? ret) = false) by lia.
   unfold serve, chain. rewrite Hr. unfold status_mw.
   set (act := c_gzip c && ae). set (hd := c_header c). set (m := tmode_of c path) in *.
   destruct (entry_b act hd) as [Bm Bs].
   pose proof (fresh_entry act hd) as F0. pose proof (entry_gz act hd) as G0.
   (* the script up to and including the writes *)
-  assert (Hscript : exists y, templates_mw m (probe (sets ++ OWh s :: map OWr bs) ret err) (entry act hd) = HRet ret err y
-                              /\ Inv3 s bs y /\ gz_on y = act).
-  { unfold templates_mw, probe. destruct m eqn:Em.
+  assert (Hscript : exists y, templates_mw m (probe (sets ++ OWh s :: map wop_op ws) ret err) (entry act hd) = HRet ret err y
+                              /\ answered s (wbody ws) act y).
+  { unfold templates_mw, templates_on, probe. destruct m eqn:Em.
     - (* no templates *)
       rewrite (run_sets _ _ _ Hs). rewrite (apply_sets_off _ _ Bm).
       cbn [run_script step]. unfold b_wh.
@@ -709,8 +739,10 @@ Proof.
       { rewrite (hs_fun_ce _ _ Hs). destruct F0 as (_&_&_&_&_&_&_&_&_&F10). exact F10. }
       { left. unfold b_active. rewrite Bm. reflexivity. }
       rewrite E0. cbn [bnd].
-      destruct (inv3_writes s bs Hb [] y0 I0) as (y1 & E1 & I1 & Gy1 & My1).
-      rewrite E1. exists y1. split; [reflexivity|]. split; [exact I1|]. congruence.
+      destruct (inv3_wops s ws Hb [] y0 I0) as (y1 & acc1 & E1 & I1 & C1 & Gy1 & My1).
+      rewrite E1. exists y1. split; [reflexivity|].
+      pose proof (inv3_answered s acc1 y1 Hb I1) as A. rewrite C1 in A. cbn [concat app] in A.
+      replace act with (gz_on y1) by congruence. exact A.
     - (* TExt always buffers *) discriminate Hsb.
     - (* by content type, not html *)
       rewrite (run_sets _ _ _ Hs). rewrite apply_sets_templates by discriminate.
@@ -723,14 +755,15 @@ Proof.
         assert (BX : b_active X = false \/ (b_wrote X = true /\ b_stream X = true)) by (right; split; reflexivity);
         destruct (inv3_commit X H s FX HX Hv BX) as (y0 & E0 & I0 & Gy0 & My0) end.
       rewrite E0. cbn [bnd].
-      destruct (inv3_writes s bs Hb [] y0 I0) as (y1 & E1 & I1 & Gy1 & My1).
+      destruct (inv3_wops s ws Hb [] y0 I0) as (y1 & acc1 & E1 & I1 & C1 & Gy1 & My1).
       rewrite E1.
       assert (St : b_stream y1 = true).
       { destruct I1 as (_ & _ & _ & [Q|[_ Q]] & _); [|exact Q].
         unfold b_active in Q. rewrite My1, My0 in Q. discriminate Q. }
-      rewrite St. cbn [orb].
-      exists y1. split; [reflexivity|]. split; [exact I1|].
-      rewrite Gy1, Gy0. destruct act, hd; reflexivity.
+      rewrite St. cbn [orb]. rewrite (b_write_buffered_stream _ St).
+      exists y1. split; [destruct (ret <? 400); reflexivity|].
+      pose proof (inv3_answered s acc1 y1 Hb I1) as A. rewrite C1 in A. cbn [concat app] in A.
+      replace act with (gz_on y1); [exact A|]. rewrite Gy1, Gy0. destruct act, hd; reflexivity.
     - (* extension does not match *)
       rewrite (run_sets _ _ _ Hs). rewrite apply_sets_templates by discriminate.
       cbn [run_script step]. unfold b_wh. cbn [b_active b_mode set_b b_wrote b_hdr should_buffer negb].
@@ -741,97 +774,326 @@ Proof.
         assert (BX : b_active X = false \/ (b_wrote X = true /\ b_stream X = true)) by (right; split; reflexivity);
         destruct (inv3_commit X H s FX HX Hv BX) as (y0 & E0 & I0 & Gy0 & My0) end.
       rewrite E0. cbn [bnd].
-      destruct (inv3_writes s bs Hb [] y0 I0) as (y1 & E1 & I1 & Gy1 & My1).
+      destruct (inv3_wops s ws Hb [] y0 I0) as (y1 & acc1 & E1 & I1 & C1 & Gy1 & My1).
       rewrite E1.
       assert (St : b_stream y1 = true).
       { destruct I1 as (_ & _ & _ & [Q|[_ Q]] & _); [|exact Q].
         unfold b_active in Q. rewrite My1, My0 in Q. discriminate Q. }
-      rewrite St. cbn [orb].
-      exists y1. split; [reflexivity|]. split; [exact I1|].
-      rewrite Gy1, Gy0. destruct act, hd; reflexivity. }
-  destruct Hscript as (y & Hy & Iy & Gy).
-  pose proof (errors_pass et (eff_path c path) (eff_errors c) _ _ ret err y Hy R1 Herr) as He.
-  pose proof (inv3_answered s bs y Hb Iy) as A. rewrite Gy in A.
+      rewrite St. cbn [orb]. rewrite (b_write_buffered_stream _ St).
+      exists y1. split; [destruct (ret <? 400); reflexivity|].
+      pose proof (inv3_answered s acc1 y1 Hb I1) as A. rewrite C1 in A. cbn [concat app] in A.
+      replace act with (gz_on y1); [exact A|]. rewrite Gy1, Gy0. destruct act, hd; reflexivity. }
+  destruct Hscript as (y & Hy & A).
+  pose proof (errors_pass et (eff_path c path) (eff_errors c) _ _ ret err y Hy R1) as He.
   exact (outer_passes et (c_log c) act hd _ ret err y s _ He R1 A).
 Qed.
 
 (* templates buffers the response and renders it afterwards *)
-Lemma buffered_writes bs : forall y,
+Lemma buffered_wops ws : forall y,
   b_active y = true -> b_wrote y = true -> b_stream y = false ->
-  run_script (map OWr bs) y =
-  Done (set_b y (b_mode y) true false (b_status y) (b_hdr y) (b_buf y ++ concat bs)).
+  run_script (map wop_op ws) y =
+  Done (set_b y (b_mode y) true false (b_status y) (b_hdr y) (b_buf y ++ wbody ws)).
 Proof.
-  induction bs as [|b bs IH]; intros y Ha Hw Hst.
-  - cbn [map run_script concat]. rewrite app_nil_r. destruct y. nproj. subst. reflexivity.
-  - cbn [map run_script step]. unfold b_wr. rewrite Ha, Hw. cbv beta iota delta [bnd]. rewrite Hst.
-    cbv beta iota delta [bnd]. rewrite IH.
-    + destruct y. nproj. subst. norm. cbn [concat]. rewrite <- app_assoc. reflexivity.
-    + destruct y. first [reflexivity | exact Ha].
-    + destruct y. first [reflexivity | exact Hw].
-    + destruct y. first [reflexivity | exact Hst].
+  induction ws as [|w ws IH]; intros y Ha Hw Hst.
+  - unfold wbody. cbn [map run_script concat]. rewrite app_nil_r. destruct y. nproj. subst. reflexivity.
+  - destruct w as [b|].
+    + cbn [map wop_op run_script step]. unfold b_wr. rewrite Ha, Hw. cbv beta iota delta [bnd]. rewrite Hst.
+      cbv beta iota delta [bnd]. rewrite IH.
+      * destruct y. nproj. subst. norm. unfold wbody. cbn [map wop_bytes concat]. rewrite <- app_assoc. reflexivity.
+      * destruct y. first [reflexivity | exact Ha].
+      * destruct y. first [reflexivity | exact Hw].
+      * destruct y. first [reflexivity | exact Hst].
+    + cbn [map wop_op run_script step]. unfold b_fl. rewrite Ha, Hw. cbn [bnd]. rewrite Hst. cbn [bnd].
+      rewrite (IH y Ha Hw Hst). unfold wbody. cbn [map wop_bytes concat app]. reflexivity.
 Qed.
 
-Lemma written_buffered et c path ae sets s bs ret err :
-  forallb set_ok sets = true -> status_rule c path = None ->
-  valid_code s = true -> bodyless s = false -> ret < 300 -> err = false ->
-  should_buffer (tmode_of c path) (hs_fun sets []) = true ->
-  contains (concat bs) TPL_OPEN = false ->
-  let x := serve et c path ae (sets ++ OWh s :: map OWr bs) ret err in
-  cm x = Some s /\ sup x = 0%nat /\ view x = (false, concat bs).
+(* header + body written through the header/gzip wrappers of a fresh stack *)
+Lemma buffered_out Y h s body :
+  fresh Y -> hget h K_CE = None -> valid_code s = true -> bodyless s = false ->
+  exists z, bnd (h_wh s (set_chdr Y h)) (fun z => match body with [] => Done z | _ => h_wr body z end) = Done z /\
+            answered s body (gz_on Y) z.
 Proof.
-  intros Hs Hr Hv Hb Hret Herr Hsb Htpl. subst err.
-  assert (R3 : (300 <=? ret) = false) by lia.
+  intros FY H3 Hv Hb. destruct body as [|b0 rest].
+  - destruct (write3_empty Y h s FY H3 Hv Hb) as (z & Ez & Az).
+    unfold bnd. rewrite Ez. exists z. split; [reflexivity|exact Az].
+  - destruct (write3 Y h s (b0 :: rest) FY H3 Hv Hb) as (z & Ez & Az).
+    unfold bnd in Ez |- *. exists z. split; [exact Ez|exact Az].
+Qed.
+
+Lemma templates_mw_on m inner x : m <> TOff -> templates_mw m inner x = templates_on m inner x.
+Proof. intro H. destruct m; [congruence| | |]; reflexivity. Qed.
+
+(* the script as seen by a buffering ResponseBuffer *)
+Lemma probe_buffered m sets s ws ret err X :
+  m <> TOff -> forallb set_ok sets = true -> should_buffer m (hs_fun sets []) = true ->
+  probe (sets ++ OWh s :: map wop_op ws) ret err (set_b X m false false 200 [] []) =
+  HRet ret err (set_b X m true false s (hs_fun sets []) (wbody ws)).
+Proof.
+  intros Hm Hs Hsb. unfold probe.
+  rewrite (run_sets _ _ _ Hs). rewrite (apply_sets_templates _ _ _ Hm).
+  cbn [run_script step]. unfold b_wh.
+  assert (Ba : b_active (set_b X m false false 200 (hs_fun sets []) []) = true)
+    by (unfold b_active; destruct m; try congruence; destruct X; reflexivity).
+  rewrite Ba. cbn [b_wrote set_b b_mode b_hdr]. rewrite Hsb. cbn [negb bnd].
+  rewrite buffered_wops; [| unfold b_active; destruct m; try congruence; destruct X; reflexivity
+                            | destruct X; reflexivity | destruct X; reflexivity].
+  destruct X; reflexivity.
+Qed.
+
+Lemma written_buffered et c path ae sets s ws ret err :
+  forallb set_ok sets = true -> status_rule c path = None ->
+  valid_code s = true -> bodyless s = false -> ret < 400 ->
+  should_buffer (tmode_of c path) (hs_fun sets []) = true ->
+  (ret < 300 -> err = false -> contains (wbody ws) TPL_OPEN = false) ->
+  let x := serve et c path ae (sets ++ OWh s :: map wop_op ws) ret err in
+  cm x = Some s /\ sup x = 0%nat /\ view x = (false, wbody ws).
+Proof.
+  intros Hs Hr Hv Hb Hret Hsb Htpl.
+  assert (R4 : (400 <=? ret) = false) by lia.
+  assert (R5 : (ret <? 400) = true) by lia.
   unfold serve, chain. rewrite Hr. unfold status_mw.
   set (act := c_gzip c && ae). set (hd := c_header c). set (m := tmode_of c path) in *.
   pose proof (fresh_entry act hd) as F0. pose proof (entry_gz act hd) as G0.
   assert (Hm : m <> TOff) by (intro Q; rewrite Q in Hsb; discriminate Hsb).
-  assert (Hscript : exists y, templates_mw m (probe (sets ++ OWh s :: map OWr bs) ret false) (entry act hd) = HRet 0 false y
-                              /\ answered s (concat bs) act y).
-  { unfold templates_mw, probe.
-    assert (Hgo : forall X, X = set_b (entry act hd) m false false 200 [] [] ->
-      exists y, match
-        match run_script (sets ++ OWh s :: map OWr bs) X with
-        | Done y => HRet ret false y | Pan y => HPan y end
-      with
-      | HRet code e y =>
-          if b_stream y || (300 <=? code) || e then HRet code e y
-          else if contains (b_buf y) TPL_OPEN then HRet 500 true y
-          else
-            let h1 := hcopy (b_hdr y) (chdr y) in
-            let h2 := hdel (hdel (hset h1 K_CL (decimal (Z.of_nat (length (b_buf y))))) K_ETAG) K_LM in
-            let h3 := match hget h2 K_CT with Some _ => h2 | None => hset h2 K_CT V_HTML end in
-            let y1 := set_chdr y h3 in
-            match bnd (h_wh (b_status y) y1)
-                      (fun z => match b_buf y with [] => Done z | _ => h_wr (b_buf y) z end) with
-            | Done z => HRet 0 false z
-            | Pan z => HPan z
-            end
-      | HPan y => HPan y
-      end = HRet 0 false y /\ answered s (concat bs) act y).
-    { intros X HX. subst X.
-      rewrite (run_sets _ _ _ Hs). rewrite (apply_sets_templates _ _ _ Hm).
-      cbn [run_script step]. unfold b_wh.
-      assert (Ba : b_active (set_b (entry act hd) m false false 200 (hs_fun sets []) []) = true)
-        by (unfold b_active; destruct m; try congruence; destruct act, hd; reflexivity).
-      rewrite Ba. cbn [b_wrote set_b b_mode b_hdr]. rewrite Hsb. cbn [negb bnd].
-      rewrite buffered_writes; [| unfold b_active; destruct m; try congruence; destruct act, hd; reflexivity
-                                | destruct act, hd; reflexivity | destruct act, hd; reflexivity].
-      cbn [b_stream set_b b_buf b_status b_hdr b_mode]. rewrite R3. cbn [orb app].
-      rewrite Htpl.
-      set (Y := set_b _ m true false s (hs_fun sets []) (concat bs)).
-      assert (FY : fresh Y) by (unfold Y; repeat apply fresh_set_b; exact F0).
-      assert (GY : gz_on Y = act) by (unfold Y; destruct act, hd; reflexivity).
+  assert (Hscript : exists r e y, templates_mw m (probe (sets ++ OWh s :: map wop_op ws) ret err) (entry act hd) = HRet r e y
+                              /\ (400 <=? r) = false /\ answered s (wbody ws) act y).
+  { rewrite (templates_mw_on _ _ _ Hm). unfold templates_on.
+    rewrite (probe_buffered m sets s ws ret err (entry act hd) Hm Hs Hsb).
+    set (Y := set_b _ m true false s (hs_fun sets []) (wbody ws)).
+    assert (FY : fresh Y) by (unfold Y; apply fresh_set_b; exact F0).
+    assert (GY : gz_on Y = act) by (unfold Y; destruct act, hd; reflexivity).
+    assert (HC : hget (hcopy (hs_fun sets []) (chdr Y)) K_CE = None)
+      by (rewrite hget_hcopy_none; [destruct act, hd; reflexivity | rewrite (hs_fun_ce _ _ Hs); reflexivity]).
+    replace (b_stream Y) with false by reflexivity.
+    replace (b_buf Y) with (wbody ws) by reflexivity.
+    replace (b_status Y) with s by reflexivity.
+    replace (b_hdr Y) with (hs_fun sets []) by reflexivity.
+    cbn [orb]. rewrite R5.
+    destruct ((300 <=? ret) || err) eqn:R3.
+    - (* a 3xx status or an error was returned: the buffered response is passed on *)
+      unfold b_write_buffered.
+      replace (b_wrote Y) with true by reflexivity. replace (b_stream Y) with false by reflexivity.
+      replace (b_buf Y) with (wbody ws) by reflexivity.
+      replace (b_status Y) with s by reflexivity.
+      replace (b_hdr Y) with (hs_fun sets []) by reflexivity.
+      cbn [andb negb].
+      destruct (buffered_out Y _ s (wbody ws) FY HC Hv Hb) as (z & Ez & Az).
+      rewrite Ez. exists ret, err, z. rewrite GY in Az. auto.
+    - (* the template is executed *)
+      apply orb_false_iff in R3 as [R3 R6]. subst err.
+      rewrite (Htpl ltac:(lia) eq_refl).
       set (h3 := match hget _ K_CT with Some _ => _ | None => _ end).
       assert (H3 : hget h3 K_CE = None).
-      { unfold h3. match goal with |- context [match ?e with _ => _ end] => destruct e end; hsimp;
-          (rewrite hget_hcopy_none; [destruct act, hd; reflexivity | rewrite (hs_fun_ce _ _ Hs); reflexivity]). }
-      destruct (concat bs) as [|b0 rest] eqn:Ebs.
-      - destruct (write3_empty Y h3 s FY H3 Hv Hb) as (z & Ez & Az).
-        unfold bnd. cbv beta iota. rewrite Ez. exists z. rewrite GY in Az. split; [reflexivity|exact Az].
-      - destruct (write3 Y h3 s (b0 :: rest) FY H3 Hv Hb) as (z & Ez & Az).
-        unfold bnd in Ez |- *. cbv beta iota. rewrite Ez. exists z. rewrite GY in Az. split; [reflexivity|exact Az]. }
-    destruct m; try congruence; exact (Hgo _ eq_refl). }
-  destruct Hscript as (y & Hy & A).
-  pose proof (errors_pass et (eff_path c path) (eff_errors c) _ _ 0 false y Hy eq_refl (or_introl eq_refl)) as He.
-  exact (outer_passes et (c_log c) act hd _ 0 false y s _ He eq_refl A).
+      { unfold h3. match goal with |- context [match ?e with _ => _ end] => destruct e end; hsimp; exact HC. }
+      destruct (buffered_out Y h3 s (wbody ws) FY H3 Hv Hb) as (z & Ez & Az).
+      cbv zeta. fold h3. rewrite Ez. exists 0, false, z. rewrite GY in Az. auto. }
+  destruct Hscript as (r & e & y & Hy & R & A).
+  pose proof (errors_pass et (eff_path c path) (eff_errors c) _ _ r e y Hy R) as He.
+  exact (outer_passes et (c_log c) act hd _ r e y s _ He R A).
+Qed.
+
+(* ---------- the full statement for written responses ---------- *)
+Lemma written_response_unaltered et c path ae sets s ws ret err :
+  forallb set_ok sets = true -> status_rule c path = None ->
+  valid_code s = true -> bodyless s = false -> ret < 400 ->
+  (should_buffer (tmode_of c path) (hs_fun sets []) = true -> ret < 300 -> err = false ->
+   contains (wbody ws) TPL_OPEN = false) ->
+  let x := serve et c path ae (sets ++ OWh s :: map wop_op ws) ret err in
+  cm x = Some s /\ sup x = 0%nat /\ view x = (false, wbody ws).
+Proof.
+  intros Hs Hr Hv Hb Hret Htpl.
+  destruct (should_buffer (tmode_of c path) (hs_fun sets [])) eqn:A.
+  - exact (written_buffered et c path ae sets s ws ret err Hs Hr Hv Hb Hret A (Htpl eq_refl)).
+  - exact (written_streamed et c path ae sets s ws ret err Hs Hr Hv Hb Hret A).
+Qed.
+
+(* ---------- a handler that writes or flushes without calling WriteHeader ---------- *)
+(* the fields of the outer wrappers are not touched by the inner writers *)
+Definition same_hb (x y : st) : Prop :=
+  h_on y = h_on x /\ h_wrote y = h_wrote x /\ b_mode y = b_mode x /\ b_wrote y = b_wrote x /\ b_stream y = b_stream x.
+Definition same_b (x y : st) : Prop :=
+  b_mode y = b_mode x /\ b_wrote y = b_wrote x /\ b_stream y = b_stream x.
+
+Lemma c_wh_hb s x : same_hb x (out_st (c_wh s x)) /\ gz_on (out_st (c_wh s x)) = gz_on x /\ gz_fw (out_st (c_wh s x)) = gz_fw x.
+Proof.
+  unfold c_wh. destruct (cm x); [|destruct (valid_code s)]; destruct x; cbn; unfold same_hb; cbn; auto 10.
+Qed.
+Lemma gzh_wh_hb s x : same_hb x (out_st (gzh_wh s x)) /\ gz_on (out_st (gzh_wh s x)) = gz_on x /\ gz_fw (out_st (gzh_wh s x)) = gz_fw x.
+Proof.
+  unfold gzh_wh. 
+  destruct (c_wh_hb s (set_chdr x (hset (hdel (chdr x) K_CL) K_CE V_GZIP))) as (A & B & C).
+  destruct (c_wh s (set_chdr x (hset (hdel (chdr x) K_CL) K_CE V_GZIP))) as [y|y]; cbn [bnd out_st] in *;
+  destruct x, y; unfold same_hb in *; cbn in *; auto 10.
+Qed.
+Lemma g_wh_hb s x : same_hb x (out_st (g_wh s x)).
+Proof.
+  unfold g_wh. destruct (gz_on x) eqn:G.
+  - destruct (gz_fw x).
+    + destruct (gz_comp x); [apply gzh_wh_hb | apply c_wh_hb].
+    + match goal with |- context [bnd (if ?c then gzh_wh s ?x1 else c_wh s ?x1) ?f] =>
+        set (X1 := x1);
+        assert (A : same_hb x (out_st (if c then gzh_wh s X1 else c_wh s X1)))
+          by (destruct c; [destruct (gzh_wh_hb s X1) as (A & _) | destruct (c_wh_hb s X1) as (A & _)];
+              destruct x; exact A);
+        destruct (if c then gzh_wh s X1 else c_wh s X1) as [y|y] end; cbn [bnd out_st] in *;
+      destruct x, y; unfold same_hb in *; cbn in *; auto 10.
+  - apply c_wh_hb.
+Qed.
+Lemma g_wh_fw s x : gz_on x = true -> forall y, g_wh s x = Done y -> gz_on y = true /\ gz_fw y = true.
+Proof.
+  intros G y. unfold g_wh. rewrite G. destruct (gz_fw x) eqn:Fw.
+  - destruct (gz_comp x); intro E.
+    + destruct (gzh_wh_hb s x) as (_ & B & C). rewrite E in B, C. cbn in B, C. split; congruence.
+    + destruct (c_wh_hb s x) as (_ & B & C). rewrite E in B, C. cbn in B, C. split; congruence.
+  - match goal with |- context [bnd (if ?c then gzh_wh s ?x1 else c_wh s ?x1) ?f] =>
+        set (X1 := x1);
+        assert (A : gz_on (out_st (if c then gzh_wh s X1 else c_wh s X1)) = true)
+          by (destruct c; [destruct (gzh_wh_hb s X1) as (_ & A & _) | destruct (c_wh_hb s X1) as (_ & A & _)];
+              rewrite A; destruct x; reflexivity);
+        destruct (if c then gzh_wh s X1 else c_wh s X1) as [z|z] end; cbn [bnd out_st] in *; [|discriminate].
+    intro E. injection E as <-. destruct z; cbn in *. auto.
+Qed.
+
+(* ---------- a first Write or Flush commits like WriteHeader(200), at every level ---------- *)
+Lemma c_implicit x : cm x = None ->
+  (forall g, c_wr g x = bnd (c_wh 200 x) (c_wr g)) /\ c_fl x = bnd (c_wh 200 x) c_fl.
+Proof.
+  intro H. unfold c_wr, c_fl, c_wh. rewrite H. rewrite valid_200. cbn [bnd]. split; reflexivity.
+Qed.
+
+Lemma bnd_ext (o : out) (f g : st -> out) : (forall y, o = Done y -> f y = g y) -> bnd o f = bnd o g.
+Proof. intro H. destruct o as [y|y]; [exact (H y eq_refl) | reflexivity]. Qed.
+
+Lemma g_implicit x : (gz_on x = true -> gz_fw x = false) -> (gz_on x = false -> cm x = None) ->
+  (forall b, g_wr b x = bnd (g_wh 200 x) (g_wr b)) /\ g_fl x = bnd (g_wh 200 x) g_fl.
+Proof.
+  intros H1 H2. destruct (gz_on x) eqn:G.
+  - specialize (H1 eq_refl). split; [intro b|].
+    + unfold g_wr at 1. rewrite G, H1. apply bnd_ext. intros y E.
+      destruct (g_wh_fw 200 x G y E) as [Gy Fy]. unfold g_wr. rewrite Gy, Fy. reflexivity.
+    + unfold g_fl at 1. rewrite G, H1. apply bnd_ext. intros y E.
+      destruct (g_wh_fw 200 x G y E) as [Gy Fy]. unfold g_fl. rewrite Gy, Fy. reflexivity.
+  - specialize (H2 eq_refl). destruct (c_implicit x H2) as [A B].
+    assert (Gw : g_wh 200 x = c_wh 200 x) by (unfold g_wh; rewrite G; reflexivity).
+    assert (Gy : forall y, c_wh 200 x = Done y -> gz_on y = false).
+    { intros y E. destruct (c_wh_hb 200 x) as (_ & P & _). rewrite E in P. cbn in P. congruence. }
+    split; [intro b|].
+    + unfold g_wr at 1. rewrite G, Gw, A. apply bnd_ext. intros y E. unfold g_wr. rewrite (Gy y E). reflexivity.
+    + unfold g_fl at 1. rewrite G, Gw, B. apply bnd_ext. intros y E. unfold g_fl. rewrite (Gy y E). reflexivity.
+Qed.
+
+Lemma h_implicit x : (h_on x = true -> h_wrote x = false) ->
+  (gz_on x = true -> gz_fw x = false) -> (gz_on x = false -> cm x = None) ->
+  (forall b, h_wr b x = bnd (h_wh 200 x) (h_wr b)) /\ h_fl x = bnd (h_wh 200 x) h_fl.
+Proof.
+  intros H0 H1 H2. destruct (h_on x) eqn:Hon.
+  - specialize (H0 eq_refl).
+    assert (Hy : forall y, h_wh 200 x = Done y -> h_on y = true /\ h_wrote y = true).
+    { intros y E. unfold h_wh in E. rewrite Hon, H0 in E.
+      match type of E with g_wh 200 ?X = _ => destruct (g_wh_hb 200 X) as (P & Q & _) end.
+      rewrite E in P, Q. cbn [out_st] in P, Q. destruct x; cbn in *. auto. }
+    split; [intro b|].
+    + unfold h_wr at 1. rewrite Hon, H0. apply bnd_ext. intros y E. destruct (Hy y E) as [P Q].
+      unfold h_wr. rewrite P, Q. reflexivity.
+    + unfold h_fl at 1. rewrite Hon, H0. apply bnd_ext. intros y E. destruct (Hy y E) as [P Q].
+      unfold h_fl. rewrite P, Q. reflexivity.
+  - destruct (g_implicit x H1 H2) as [A B].
+    assert (Hw : h_wh 200 x = g_wh 200 x) by (unfold h_wh; rewrite Hon; reflexivity).
+    assert (Hy : forall y, g_wh 200 x = Done y -> h_on y = false).
+    { intros y E. destruct (g_wh_hb 200 x) as (P & _). rewrite E in P. cbn in P. congruence. }
+    split; [intro b|].
+    + unfold h_wr at 1. rewrite Hon, Hw, A. apply bnd_ext. intros y E. unfold h_wr. rewrite (Hy y E). reflexivity.
+    + unfold h_fl at 1. rewrite Hon, Hw, B. apply bnd_ext. intros y E. unfold h_fl. rewrite (Hy y E). reflexivity.
+Qed.
+
+Lemma h_wh_b s x : same_b x (out_st (h_wh s x)).
+Proof.
+  unfold h_wh. destruct (h_on x).
+  - destruct (h_wrote x); [unfold same_b; auto|].
+    match goal with |- context [g_wh s ?X] => destruct (g_wh_hb s X) as (_ & _ & P & Q & R) end.
+    destruct x; unfold same_b; cbn in *; auto.
+  - destruct (g_wh_hb s x) as (_ & _ & P & Q & R). unfold same_b; auto.
+Qed.
+
+Lemma implicit_header w x :
+  (b_active x = true -> b_wrote x = false) -> (h_on x = true -> h_wrote x = false) ->
+  (gz_on x = true -> gz_fw x = false) -> (gz_on x = false -> cm x = None) ->
+  step (wop_op w) x = bnd (b_wh 200 x) (step (wop_op w)).
+Proof.
+  intros Hb H0 H1 H2. destruct (b_active x) eqn:Ba.
+  - specialize (Hb eq_refl).
+    assert (Hy : forall y, b_wh 200 x = Done y -> b_active y = true /\ b_wrote y = true).
+    { intros y E. unfold b_wh in E. rewrite Ba, Hb in E.
+      match type of E with (if ?c then _ else _) = _ => destruct c end.
+      - match type of E with h_wh 200 ?X = _ => destruct (h_wh_b 200 X) as (P & Q & _) end.
+        rewrite E in P, Q. cbn [out_st] in P, Q. unfold b_active in *. destruct x; cbn in *. rewrite P. auto.
+      - injection E as <-. unfold b_active in *. destruct x; cbn in *. auto. }
+    destruct w as [b|]; cbn [wop_op step].
+    + unfold b_wr at 1. rewrite Ba, Hb. apply bnd_ext. intros y E. destruct (Hy y E) as [P Q].
+      cbn [step]. unfold b_wr. rewrite P.
+      replace (if b_wrote y then Done y else b_wh 200 y) with (Done y) by (rewrite Q; reflexivity). reflexivity.
+    + unfold b_fl at 1. rewrite Ba, Hb. apply bnd_ext. intros y E. destruct (Hy y E) as [P Q].
+      cbn [step]. unfold b_fl. rewrite P.
+      replace (if b_wrote y then Done y else b_wh 200 y) with (Done y) by (rewrite Q; reflexivity). reflexivity.
+  - destruct (h_implicit x H0 H1 H2) as [A B].
+    assert (Bw : b_wh 200 x = h_wh 200 x) by (unfold b_wh; rewrite Ba; reflexivity).
+    assert (Hy : forall y, h_wh 200 x = Done y -> b_active y = false).
+    { intros y E. destruct (h_wh_b 200 x) as (P & _). rewrite E in P. cbn in P. unfold b_active in *. rewrite P. exact Ba. }
+    destruct w as [b|]; cbn [wop_op step].
+    + unfold b_wr at 1. rewrite Ba, Bw, A. apply bnd_ext. intros y E. cbn [step]. unfold b_wr. rewrite (Hy y E). reflexivity.
+    + unfold b_fl at 1. rewrite Ba, Bw, B. apply bnd_ext. intros y E. cbn [step]. unfold b_fl. rewrite (Hy y E). reflexivity.
+Qed.
+
+Lemma run_implicit w rest x :
+  (b_active x = true -> b_wrote x = false) -> (h_on x = true -> h_wrote x = false) ->
+  (gz_on x = true -> gz_fw x = false) -> (gz_on x = false -> cm x = None) ->
+  run_script (wop_op w :: rest) x = run_script (OWh 200 :: wop_op w :: rest) x.
+Proof.
+  intros Hb H0 H1 H2. cbn [run_script]. rewrite (implicit_header w x Hb H0 H1 H2). cbn [step].
+  destruct (b_wh 200 x); reflexivity.
+Qed.
+
+(* what the layers outside templates do only depends on what the inner handlers do on the
+   writer stack they are handed *)
+Lemma outer_ext et ep lg act hd em rule (T1 T2 : st -> hres) :
+  T1 (entry act hd) = T2 (entry act hd) ->
+  server et (log_mw et lg (gzip_mw et act (header_mw hd (errors_mw et ep em (status_mw rule T1))))) =
+  server et (log_mw et lg (gzip_mw et act (header_mw hd (errors_mw et ep em (status_mw rule T2))))).
+Proof.
+  intro H.
+  assert (E : errors_mw et ep em (status_mw rule T1) (entry act hd) = errors_mw et ep em (status_mw rule T2) (entry act hd)).
+  { unfold errors_mw, status_mw. destruct rule; [reflexivity|]. rewrite H. reflexivity. }
+  unfold server, log_mw, log_next, gzip_mw, header_mw.
+  destruct act, hd; unfold entry, enter_header, enter_gzip in E; rewrite E; reflexivity.
+Qed.
+
+Lemma serve_implicit_header et c path ae sets w ws ret err :
+  forallb set_ok sets = true ->
+  serve et c path ae (sets ++ map wop_op (w :: ws)) ret err =
+  serve et c path ae (sets ++ OWh 200 :: map wop_op (w :: ws)) ret err.
+Proof.
+  intro Hs. unfold serve, chain. apply outer_ext.
+  set (act := c_gzip c && ae). set (hd := c_header c). set (m := tmode_of c path).
+  pose proof (fresh_entry act hd) as F0.
+  assert (F1 : fresh (apply_sets sets (enter_templates m (entry act hd))))
+    by (apply fresh_apply_sets; [exact Hs|]; apply fresh_enter; exact F0).
+  assert (W1 : b_wrote (apply_sets sets (enter_templates m (entry act hd))) = false)
+    by (unfold apply_sets; destruct m, act, hd; reflexivity).
+  destruct F1 as (C1 & _ & _ & C4 & _ & _ & _ & _ & C9 & _).
+  assert (R : run_script (sets ++ map wop_op (w :: ws)) (enter_templates m (entry act hd)) =
+              run_script (sets ++ OWh 200 :: map wop_op (w :: ws)) (enter_templates m (entry act hd))).
+  { rewrite !(run_sets _ _ _ Hs). cbn [map]. apply run_implicit; intros _; assumption. }
+  unfold templates_mw, templates_on, probe.
+  destruct m; cbn [enter_templates] in R; rewrite R; reflexivity.
+Qed.
+
+Lemma implicit_response_unaltered et c path ae sets w ws ret err :
+  forallb set_ok sets = true -> status_rule c path = None -> ret < 400 ->
+  (should_buffer (tmode_of c path) (hs_fun sets []) = true -> ret < 300 -> err = false ->
+   contains (wbody (w :: ws)) TPL_OPEN = false) ->
+  let x := serve et c path ae (sets ++ map wop_op (w :: ws)) ret err in
+  cm x = Some 200 /\ sup x = 0%nat /\ view x = (false, wbody (w :: ws)).
+Proof.
+  intros Hs Hr Hret Htpl. cbv zeta. rewrite (serve_implicit_header et c path ae sets w ws ret err Hs).
+  exact (written_response_unaltered et c path ae sets 200 (w :: ws) ret err Hs Hr eq_refl eq_refl Hret Htpl).
 Qed.
